@@ -726,12 +726,13 @@ def body(chk):
     only = os.environ.get('C07_ONLY')
     for rule, spec, dom in table:
         if only and rule != only: continue
-        chk.phase(rule)
-        res = run_rule(C, rule, std_args)
-        decide(C, rule, res, spec, dom or (lambda eng, args: []))
+        def one(rule=rule, spec=spec, dom=dom):
+            res = run_rule(C, rule, std_args)
+            decide(C, rule, res, spec, dom or (lambda eng, args: []))
+        chk.part(rule, one)
     if not only:
-        chk.phase('memo'); part_memo(C)
-        chk.phase('resolve_value_type'); part_resolve(C)
+        chk.part('memo', part_memo, C)
+        chk.part('resolve_value_type', part_resolve, C)
 
 if __name__ == '__main__':
     harness.run_check('C07', body)
